@@ -1342,6 +1342,82 @@ def main_grid(write=True):
     return _regen(translate_grid, GEN_GRID, SNAP_GRID, write)
 
 
+HEADER_BLOCKS = """/-
+  GENERATED by harness/py2lean.py from the source text of /repo on every check run — do not edit.
+  `BlockReduce.filter` and `BlockReduce._block_coordinates` (blockreduce.py) after `block_split`, over the pandas contract
+  `groupby("block").aggregate(f)` (`groupAgg` / `groupAggW` in Model/Blocks.lean).  PINNED translation: every statement of the two methods
+  must still unparse to the form this text was written from (a table in py2lean.translate_blocks); otherwise nothing is emitted and the
+  tie degrades to the correspondence.  Props/C09.lean proves the text equal to the model.
+-/
+import VerdeModel.Model.Blocks
+namespace Verde.Gen
+open Verde
+
+"""
+GEN_BLOCKS = os.path.join(VERIF, "lean", "VerdeModel", "Gen", "Blocks.lean")
+SNAP_BLOCKS = os.path.join(VERIF, "lean", "VerdeModel", "GenSnapshot", "Blocks.lean.txt")
+
+PINNED_BLOCK_COORDS = [
+    ("if self.drop_coords:\n    coordinates = coordinates[:2]", "let coordinates := if self.dropCoords then coordinates.take 2 else coordinates"),
+    ("coords = {'coordinate{}'.format(i): np.ravel(coord) for i, coord in enumerate(coordinates)}", None),
+    ("coords['block'] = labels", None),
+    ("table = pd.DataFrame(coords)", None),
+    ("grouped = table.groupby('block').aggregate(self.reduction)", "let grouped := coordinates.map fun coord => groupAgg keys labels coord self.fn"),
+    ("if self.center_coordinates:\n    unique = np.unique(labels)\n    for i, block_coord in enumerate(block_coordinates[:2]):\n"
+     "        grouped['coordinate{}'.format(i)] = np.ravel(block_coord[unique])",
+     "let grouped := if self.centre then\n      let unique := keys      -- np.unique(labels): the occupied blocks, ascending\n"
+     "      grouped.mapIdx fun i col => if i < 2 then unique.map fun k => (if i = 0 then (block_coordinates.getD k (0, 0)).1 else (block_coordinates.getD k (0, 0)).2) else col\n"
+     "    else grouped"),
+    ("return tuple((grouped['coordinate{}'.format(i)].values for i in range(len(coordinates))))", "grouped"),
+]
+PINNED_BLOCK_FILTER = [
+    ("coordinates, data, weights = check_fit_input(coordinates, data, weights, unpack=False)", None),
+    ("blocks, labels = block_split(coordinates, spacing=self.spacing, shape=self.shape, adjust=self.adjust, region=self.region)", None),
+    ("if any((w is None for w in weights)):\n    reduction = self.reduction\nelse:\n    reduction = {'data{}'.format(i): attach_weights(self.reduction, w) for i, w in enumerate(weights)}", None),
+    ("columns = {'data{}'.format(i): np.ravel(comp) for i, comp in enumerate(data)}", None),
+    ("columns['block'] = labels", None),
+    ("blocked = pd.DataFrame(columns).groupby('block').aggregate(reduction)", None),
+    ("blocked_data = tuple((np.ravel(blocked['data{}'.format(i)]) for i, _ in enumerate(data)))",
+     "let blocked_data ← (match weights with      -- column data{i} of the aggregated table, i-th data component with the i-th weights\n"
+     "    | none => pure (data.map fun comp => groupAgg keys labels comp self.fn)\n"
+     "    | some weights => (data.zip weights).mapM fun (comp, w) => groupAggW keys labels comp w self.fnW)"),
+    ("blocked_coords = self._block_coordinates(coordinates, blocks, labels)", "let blocked_coords := Gen.blockCoordinates self coordinates blocks labels keys"),
+    ("if len(blocked_data) == 1:\n    return (blocked_coords, blocked_data[0])", None),
+    ("return (blocked_coords, blocked_data)", "return (blocked_coords, blocked_data)"),
+]
+
+
+def translate_blocks():
+    path = "verde/blockreduce.py"
+    src = open(os.path.join(REPO, path)).read()
+    tree = ast.parse(src)
+    cls = [n for n in tree.body if isinstance(n, ast.ClassDef) and n.name == "BlockReduce"]
+    meth = {n.name: n for n in cls[0].body if isinstance(n, ast.FunctionDef)} if cls else {}
+    out = []
+    for name, lean_head, table, pre in (
+            ("_block_coordinates", "def blockCoordinates (self : ReduceSpec) (coordinates : List (List Rat)) (block_coordinates : List (Rat × Rat)) (labels : List Nat) "
+             "(keys : List Nat) :\n    List (List Rat) :=", PINNED_BLOCK_COORDS, []),
+            ("filter", "def blockReduceFilter (self : ReduceSpec) (blocks : List (Rat × Rat)) (labels : List Nat) (coordinates data : List (List Rat)) "
+             "(weights : Option (List (List Rat))) :\n    Except Err (List (List Rat) × List (List Rat)) := do",
+             PINNED_BLOCK_FILTER, ["let keys := groupKeys (max blocks.length (labelBound labels)) labels      -- the groups of groupby(\"block\")"])):
+        fn = meth.get(name)
+        if fn is None:
+            raise Untranslatable(f"BlockReduce.{name} not found")
+        body = [ast.unparse(x) for x in fn.body if not (isinstance(x, ast.Expr) and isinstance(x.value, ast.Constant))]
+        if body != [t for t, _ in table]:
+            k = next((i for i, (a, b) in enumerate(zip(body, [t for t, _ in table])) if a != b), min(len(body), len(table)))
+            raise Untranslatable(f"BlockReduce.{name}: statement {k} is no longer the pinned form: {(body + ['<missing>'])[k][:120]!r}")
+        seg = ast.get_source_segment(src, fn)
+        lines = pre + [ln for _, ln in table if ln is not None]
+        out.append(f"/-- pinned translation of {path}:{fn.lineno}-{fn.end_lineno} (BlockReduce.{name}), sha256 {hashlib.sha256(seg.encode()).hexdigest()[:16]} -/\n"
+                   + lean_head + "\n" + "\n".join("  " + ln for ln in lines) + "\n")
+    return HEADER_BLOCKS + "\n".join(out) + "\nend Verde.Gen\n"
+
+
+def main_blocks(write=True):
+    return _regen(translate_blocks, GEN_BLOCKS, SNAP_BLOCKS, write)
+
+
 HEADER_TREND = """/-
   GENERATED by harness/py2lean.py from the source text of /repo on every check run — do not edit.
   `polynomial_power_combinations` (trend.py); Props/C03.lean proves it equal to the model's explicit monomial order.
